@@ -281,6 +281,98 @@ Not applicable: that the position lies in the first malformed assignment (nom's 
             }
         }
     }
+    // From<nom::Err<ErrorTree>> for LexerError: a recoverable error and a failure (raised below `cut`) carry the same kind of
+    // report — the conversion has no access to the source text, so whatever it recomputes about lines and offsets cannot be
+    // checked against it: the report built by ReportData::from arrives unchanged for both
+    if let Some(f) = m.fns.iter().find(|f| f.name == "from" && f.self_ty.as_deref() == Some("LexerError") && f.sig.inputs.iter().any(|a| matches!(a, syn::FnArg::Typed(t) if tok(&t.ty).contains("ErrorTree")))) {
+        use crate::eval::{Env, Evaluator, Val};
+        use std::collections::BTreeMap as Map;
+        ctx.func(&f.key);
+        let consts = const_resolver(m);
+        let report = || {
+            let mut rd = Map::new();
+            for (k, v) in [("line", 17), ("column", 4), ("offset", 321), ("context_start_line", 12), ("context_start_offset", 250)] {
+                rd.insert(k.to_string(), Val::int(v));
+            }
+            rd.insert("src_file".to_string(), Val::none());
+            rd.insert("reason".to_string(), Val::Str("reason".into()));
+            rd.insert("unexpected_eof".to_string(), Val::Bool(false));
+            Val::Ctor("ReportData".into(), vec![], rd)
+        };
+        let hook = |_: &Evaluator, name: &str, a: &[Val]| -> Option<Result<Val, String>> {
+            match (name, a.first()) {
+                (".into", Some(Val::Opaque(s))) | ("ReportData::from", Some(Val::Opaque(s))) | ("From::from", Some(Val::Opaque(s))) if s == "error-tree" => Some(Ok(report())),
+                _ => None,
+            }
+        };
+        let ev = Evaluator { consts: &consts, call_hook: &hook, inline: None };
+        let param = f.sig.inputs.iter().filter_map(|a| match a { syn::FnArg::Typed(t) => Some(tok(&t.pat)), _ => None }).next().unwrap_or("value".into());
+        // the column Input gives the first character behind a line break (its own convention: evaluated, not assumed)
+        let first_col = first_column_after_break(m).unwrap_or(1);
+        let lines: Vec<&str> = vec!["M DEFINITIONS ::= BEGIN", "", "A ::= INTEGER", "B ::= BOOLEAN", "", "-- c", "C ::= NULL", "Bad ::= SEQUENCE {", "  a INTEGER,", "  b BOOLEAN DEFAULT ?,", "}", "Next ::= NULL", "END"];
+        let text = lines.join("\n") + "\n";
+        let offset_of_line = |n: usize| -> usize { lines.iter().take(n - 1).map(|l| l.len() + 1).sum() };
+        let (err_line, nth_char, ctx_line) = (10usize, 21usize, 8usize);
+        let concrete = {
+            let mut rd = Map::new();
+            rd.insert("line".to_string(), Val::int(err_line as i128));
+            rd.insert("column".to_string(), Val::int(first_col + nth_char as i128 - 1));
+            rd.insert("offset".to_string(), Val::int((offset_of_line(err_line) + nth_char - 1) as i128));
+            rd.insert("context_start_line".to_string(), Val::int(ctx_line as i128));
+            rd.insert("context_start_offset".to_string(), Val::int(offset_of_line(ctx_line) as i128));
+            rd.insert("src_file".to_string(), Val::none());
+            rd.insert("reason".to_string(), Val::Str("reason".into()));
+            rd.insert("unexpected_eof".to_string(), Val::Bool(false));
+            Val::Ctor("ReportData".into(), vec![], rd)
+        };
+        let concrete2 = concrete.clone();
+        let hook2 = move |_: &Evaluator, name: &str, a: &[Val]| -> Option<Result<Val, String>> {
+            match (name, a.first()) {
+                (".into", Some(Val::Opaque(s))) | ("ReportData::from", Some(Val::Opaque(s))) | ("From::from", Some(Val::Opaque(s))) if s == "error-tree" => Some(Ok(concrete2.clone())),
+                _ => None,
+            }
+        };
+        let ev2 = Evaluator { consts: &consts, call_hook: &hook2, inline: None };
+        let _ = (&ev, &report);
+        for variant in ["Error", "Failure"] {
+            ctx.oblige("C17.same", &format!("lexer-error:{}", variant), true);
+            let mut env = Env::new();
+            env.insert(param.clone(), Val::Ctor(variant.into(), vec![Val::Opaque("error-tree".into())], Map::new()));
+            let le = match ev2.eval_fn_body(&f.block, &mut env) {
+                Ok(v @ Val::Ctor(..)) => v,
+                Ok(o) => { ctx.fail_closed("C17.same", &format!("[LexerError::from {}]: {}", variant, o.show().chars().take(100).collect::<String>())); continue }
+                Err(e) => { ctx.fail_closed("C17.same", &format!("[LexerError::from {}]: {}", variant, e)); continue }
+            };
+            // the structured report still names the failing line ..
+            let rd_line = match &le { Val::Ctor(_, _, fl) => match fl.get("kind") { Some(Val::Ctor(k, p, _)) if k == "MatchingError" => match p.first() { Some(Val::Ctor(_, _, r)) => r.get("line").cloned(), _ => None }, _ => None }, _ => None };
+            if rd_line != Some(Val::int(err_line as i128)) {
+                ctx.violate("C17.same", &format!("lexer-error:{}:line", variant), &f.file, f.line, &format!("a nom::Err::{} becomes a LexerError whose report names line {:?}; the failing input is on line {}", variant, rd_line.map(|v| v.show()), err_line));
+                continue;
+            }
+            // .. and contextualize() marks that line
+            match eval_contextualize(m, le, &text) {
+                Ok(out) => {
+                    let mut labelled: Vec<(usize, String)> = vec![];
+                    for l in out.lines() {
+                        if let Some((lab, rest)) = l.split_once('│') {
+                            if let Ok(n) = lab.trim().parse::<usize>() {
+                                labelled.push((n, rest.to_string()));
+                            }
+                        }
+                    }
+                    let marked: Vec<usize> = labelled.iter().filter(|(_, t)| t.contains("FAILED AT THIS LINE")).map(|(n, _)| *n).collect();
+                    let wrong: Vec<String> = labelled.iter().filter(|(n, t)| { let shown = t.split('◀').next().unwrap_or("").trim(); lines.get(n.wrapping_sub(1)).map(|src| src.trim() != shown).unwrap_or(true) }).map(|(n, t)| format!("{} -> {:?}", n, t.trim())).collect();
+                    if marked != vec![err_line] || !wrong.is_empty() {
+                        ctx.violate("C17.same", &format!("lexer-error:{}:contextualize-disagrees", variant), &f.file, f.line,
+                            &format!("a nom::Err::{} on line {} (column {} by Input's own counting): the structured report and Display say line {}, contextualize() marks {:?}{} — the three renderings of one error do not show the same line", variant, err_line, first_col + nth_char as i128 - 1, err_line, marked, if wrong.is_empty() { String::new() } else { format!(" and labels lines with numbers that are not theirs ({})", wrong.join(", ")) }));
+                    }
+                }
+                Err(e) => ctx.fail_closed("C17.same", &format!("[LexerError::from {} -> contextualize]: {}", variant, e)),
+            }
+        }
+    } else {
+        ctx.fail_closed("C17.same", "anchor not found: From<nom::Err<ErrorTree>> for LexerError");
+    }
     // accessors return the fields
     for (acc, fld) in [("line", "line"), ("column", "column"), ("offset", "offset"), ("context_start_line", "context_start_line"), ("context_start_offset", "context_start_offset")] {
         if let Ok(f) = m.find_fn(Some("Input"), acc, Some("input")) {
@@ -597,5 +689,68 @@ B ::= BOOLEAN".to_string(), 22),
         if !tok(&f.block).contains("Input::from(&input)") {
             ctx.violate("C17.path", "lexer-input", &f.file, f.line, "asn_spec must build its Input from the source unit (path included)");
         }
+    }
+}
+
+
+/// contextualize() evaluated on a LexerError value and a source text (until_next_unindented followed)
+fn eval_contextualize(m: &Model, lexer_error: crate::eval::Val, text: &str) -> Result<String, String> {
+    use crate::eval::{Env, Evaluator, Val};
+    let f = m.fns.iter().find(|f| f.name == "contextualize" && f.self_ty.as_deref() == Some("LexerError")).ok_or("anchor not found: LexerError::contextualize")?;
+    let consts = const_resolver(m);
+    let helper = m.fns.iter().find(|g| g.name == "until_next_unindented" && g.module.starts_with("lexer"));
+    let hook = |ev: &Evaluator, name: &str, a: &[Val]| -> Option<Result<Val, String>> {
+        match name {
+            "until_next_unindented" => {
+                let h = helper?;
+                let ps: Vec<String> = h.sig.inputs.iter().filter_map(|x| match x { syn::FnArg::Typed(t) => Some(tok(&t.pat)), _ => None }).collect();
+                let mut env = Env::new();
+                for (p, v) in ps.iter().zip(a.iter()) {
+                    env.insert(p.clone(), v.clone());
+                }
+                Some(ev.eval_fn_body(&h.block, &mut env))
+            }
+            ".unwrap_or_default" if matches!(a.first(), Some(Val::Ctor(n, _, _)) if n == "None") => Some(Ok(Val::Str(String::new()))),
+            _ => None,
+        }
+    };
+    let ev = Evaluator { consts: &consts, call_hook: &hook, inline: None };
+    let param = f.sig.inputs.iter().filter_map(|a| match a { syn::FnArg::Typed(t) => Some(tok(&t.pat)), _ => None }).next().unwrap_or("input".into());
+    let mut env = Env::new();
+    env.insert("self".into(), lexer_error);
+    env.insert(param, Val::Str(text.to_string()));
+    match ev.eval_fn_body(&f.block, &mut env)? {
+        Val::Str(s) | Val::Sym(s) => Ok(s),
+        o => Err(format!("contextualize returned {}", o.show().chars().take(80).collect::<String>())),
+    }
+}
+
+/// Input::slice evaluated on "ab\ncd" consuming "ab\n": the column Input assigns to the first character of the second line
+fn first_column_after_break(m: &Model) -> Option<i128> {
+    use crate::eval::{Env, Evaluator, Val};
+    use std::collections::BTreeMap;
+    let f = m.fns.iter().find(|f| f.name == "slice" && f.self_ty.as_deref() == Some("Input") && f.module == "input")?;
+    let consts = const_resolver(m);
+    let hook = |_: &Evaluator, name: &str, a: &[Val]| -> Option<Result<Val, String>> {
+        match (name, a.first(), a.get(1)) {
+            (".offset", Some(Val::Str(_)), Some(Val::Str(_))) => Some(Ok(Val::int(3))),
+            (".clone", Some(v), None) => Some(Ok(v.clone())),
+            _ => None,
+        }
+    };
+    let ev = Evaluator { consts: &consts, call_hook: &hook, inline: None };
+    let param = f.sig.inputs.iter().filter_map(|a| match a { syn::FnArg::Typed(t) => Some(tok(&t.pat)), _ => None }).next().unwrap_or("range".into());
+    let mut fm = BTreeMap::new();
+    fm.insert("inner".to_string(), Val::Str("ab\ncd".into()));
+    for (k, v) in [("line", 1), ("column", 1), ("offset", 0), ("context_start_line", 1), ("context_start_offset", 0)] {
+        fm.insert(k.to_string(), Val::int(v));
+    }
+    fm.insert("src_file".to_string(), Val::none());
+    let mut env = Env::new();
+    env.insert("self".into(), Val::Ctor("Input".into(), vec![], fm));
+    env.insert(param, Val::Ctor("$range".into(), vec![Val::int(3), Val::Unit], BTreeMap::new()));
+    match ev.eval_fn_body(&f.block, &mut env).ok()? {
+        Val::Ctor(_, _, r) => match r.get("column") { Some(Val::Int { v, .. }) => Some(*v), _ => None },
+        _ => None,
     }
 }
